@@ -22,7 +22,15 @@
       over newWindow / moveOneLeft / setRight / fillPrefix): on every uniform grid, for every series, range and *_over_time
       function the cursor-driven evaluation returns at point i the function of the k points ending at i (k = ⌈w/s⌉ not strict,
       ⌊w/s⌋ strict; window_timestamps: = the points with timestamp in (t_i − w, t_i] / whose bucket lies in the range), the
-      nil value when none is present, missing for i < k.  PARTIAL: non-uniform (multi-LOD) grids are correspondence-only.
+      nil value when none is present, missing for i < k.
+    * over_time_is_definition_general (SH.Lemmas.PromWindowG.overTimeWith_general): the same on ARBITRARY grids (two-LOD time
+      scales): with L r = the left edge the range selects for point r with that point's own bucket width (the cursor's test;
+      monotone, automatically so when not strict), point i carries the function of the points L i … i; instance twoLodCtx.
+      Excluded by hypothesis: a strict function whose range is narrower than a point's bucket (the code forces an empty window).
+    * overtime_pushdown_two_grids (+ bucket_by_seconds, bucket_value_is_window_function, bucket_avg_is_window_avg): rule #1's
+      storage pre-aggregate of the bucket [T, T+r) equals f_over_time over the one-second points of that bucket (engine window
+      evaluation on the one-second grid, via over_time_is_definition) for sum/min/max, count up to the 0-vs-missing convention,
+      avg as sum/count at the row level; stdvar/stddev excluded (stdvar_pushdown_is_not_population).
     * bucket_group_eq_pooled, groupPoint_pushdown, pushed_query_is_aggregate, rule0..3_expression, reduction_sound_sum:
       reduction soundness lifted to the storage query over events and to whole expressions: under exactly the rules' side
       conditions the evaluator's result for the four rule shapes IS the storage query, and that query's every point is the
@@ -32,6 +40,7 @@
       (a tag named twice, or by two of its names, changes neither the engine-side grouping nor the pushed-down query).
     * quantile_def (∀ q ∈ [0,1]: linear interpolation between the closest ranks of the sorted present points, with bounds),
       aggQuantile_perm (function of the multiset of present points), topk_def / topK_eq (per-series weight semantics).
+    * repo_alias_violates: the pinned tree's engine-side grouping by a legacy alias differs from the pushed-down query.
     * aggGroup_repo_violates, aggStdVar_repo_violates, repo_reduction_violates: the pinned tree's behaviour (Cfg.repo)
       contradicts the property on concrete inputs; Cfg.fixed = fixes/C27-*.diff.
     * binApply_self / binApply_matched: vector-vector binary operators (one-to-one): an operand matched against itself loses
@@ -41,6 +50,7 @@
 -/
 import SH.Model.PromEval
 import SH.Lemmas.PromWindow
+import SH.Lemmas.PromWindowG
 import SH.Lemmas.PromReduce
 import Mathlib.Algebra.Order.Field.Rat
 import Mathlib.Data.List.Sort
@@ -51,7 +61,7 @@ import Mathlib.Tactic.Ring
 import Mathlib.Tactic.Linarith
 
 namespace SH.Props.C27
-open SH.PromEval SH.PromWindow SH.PromReduce
+open SH.PromEval SH.PromWindow SH.PromWindowG SH.PromReduce
 
 /-! helper lemmas -/
 
@@ -1289,6 +1299,307 @@ theorem rule0_dedup (st : Store) (ts : TS) (op : AggOp) (w : What) (wo : Bool) (
 
 example : keyOf false [2, 1, 2, 1] [(1, 7), (2, 8), (3, 9)] = [(1, 7), (2, 8)] ∧ [2, 1, 2, 1].eraseDups = [2, 1] ∧
     exec Cfg.fixed exStore exTS none [.agg .sum false [2, 2]] = exec Cfg.fixed exStore exTS none [.agg .sum false [2]] := by
+  decide +kernel
+
+
+
+/-! ### the legacy alias key<i> alone: pinned tree vs fix (fixes/C27-group-alias.diff) -/
+
+/-- `sum by (key2) (m)`: pushed down (rule #0) the storage groups by tag 2 and returns {2=1} and {2=2}; evaluated by the
+    engine on the pinned tree (`sum by (key2) (m + 0)`) the same two groups come back WITHOUT the label, two series with the
+    same empty label set — pushing the aggregation down does not yield the engine's result.  `sum without (key2)` pinned:
+    tag 2 is not excluded.  With the fix (labels = resolved indices) both evaluations agree. -/
+theorem repo_alias_violates :
+    (queryStorage exStore exTS .sumsec [2] 0).map (·.tags) = [[(2, 1)], [(2, 2)]] ∧
+    (aggregateRepoAlias 3 aggSum false [] [2] (queryStorage exStore exTS .sumsec allTags 0)).map (·.tags) = [[], []] ∧
+    (aggregate 3 aggSum false [2] (queryStorage exStore exTS .sumsec allTags 0)) = queryStorage exStore exTS .sumsec [2] 0 ∧
+    (aggregateRepoAlias 3 aggSum true [] [2] (queryStorage exStore exTS .sumsec allTags 0)).map (·.tags)
+      = [[(1, 1), (2, 1), (3, 1)], [(1, 1), (2, 2), (3, 1)]] ∧
+    (aggregate 3 aggSum true [2] (queryStorage exStore exTS .sumsec allTags 0)).map (·.tags) = [[(1, 1), (3, 1)]] := by
+  decide +kernel
+
+
+/-! ### the over-time push-down (rule #1) equals the engine's window evaluation over the one-second points: two grids -/
+
+/-- a per-second row: no event, or exactly one event -/
+def isEv (o : Option Row) : Prop := o = none ∨ ∃ v, o = some (Row.ofEvent v)
+
+/-- the one-second value the engine sees for `m` (default what = avg) -/
+def secVal (o : Option Row) : Val := o.map (rowValue .avg 1 1)
+
+theorem secVal_ofEvent (v : Rat) : secVal (some (Row.ofEvent v)) = some v := by
+  simp [secVal, rowValue, Row.ofEvent]
+
+theorem map_value_eq_secVal (per : List (Option Row)) (h : ∀ o ∈ per, isEv o) (f : Row → Rat) (hf : ∀ v, f (Row.ofEvent v) = v) :
+    per.map (Option.map f) = per.map secVal := by
+  apply List.map_congr_left
+  intro o ho
+  rcases h o ho with rfl | ⟨v, rfl⟩
+  · rfl
+  · rw [secVal_ofEvent]; simp [hf]
+
+theorem present_const_one (per : List (Option Row)) (h : ∀ o ∈ per, isEv o) (r : Int) (hr : r ≠ 0) :
+    present (per.map (Option.map (rowValue .count r r))) = (present (per.map secVal)).map (fun _ => (1 : Rat)) := by
+  induction per with
+  | nil => rfl
+  | cons o os ih =>
+    have ih' := ih (fun o ho => h o (List.mem_cons_of_mem _ ho))
+    rcases h o (List.mem_cons_self) with rfl | ⟨v, rfl⟩
+    · simp only [List.map_cons, Option.map_none, present_cons_none]
+      have : secVal none = none := rfl
+      rw [this, present_cons_none]; exact ih'
+    · have hr' : (r : Rat) ≠ 0 := by exact_mod_cast hr
+      have h1 : rowValue .count r r (Row.ofEvent v) = 1 := by
+        simp [rowValue, Row.ofEvent, hr']
+      simp only [List.map_cons, Option.map_some, h1, secVal_ofEvent, present_cons_some, ih']
+
+theorem ratSum_const_one (l : List Rat) : ratSum (l.map (fun _ => (1 : Rat))) = (l.length : Rat) := by
+  induction l with
+  | nil => simp [ratSum_nil]
+  | cons x xs ih => simp only [List.map_cons, ratSum_cons, ih, List.length_cons]; push_cast; ring
+
+/-- **bucket pre-aggregate = window function of the per-second points** (algebraic core, ∀ per-second rows with at most one
+    event each, ∀ range r ≠ 0 = bucket width): sum, min, max give the engine's aggregate of the one-second values; count
+    gives their number — missing where the bucket has no event. -/
+theorem bucket_value_is_window_function (per : List (Option Row)) (h : ∀ o ∈ per, isEv o) (r : Int) (hr : r ≠ 0) :
+    (pooled per).map (rowValue .sum r r) = otApply .sum (per.map secVal) ∧
+    (pooled per).map (rowValue .min r r) = otApply .min (per.map secVal) ∧
+    (pooled per).map (rowValue .max r r) = otApply .max (per.map secVal) ∧
+    (pooled per).map (rowValue .count r r) =
+      (if (present (per.map secVal)).length = 0 then none else otApply .count (per.map secVal)) := by
+  have hr' : (r : Rat) ≠ 0 := by exact_mod_cast hr
+  refine ⟨?_, ?_, ?_, ?_⟩
+  · rw [(reduce_sum_sound per r r).2, map_value_eq_secVal per h _ (by intro v; simp [rowValue, Row.ofEvent, hr']), aggSum_def]
+    simp only [otApply]
+    by_cases h0 : present (per.map secVal) = [] <;> simp [h0]
+  · rw [reduce_min_sound per r r, map_value_eq_secVal per h _ (by intro v; simp [rowValue, Row.ofEvent])]; rfl
+  · rw [reduce_max_sound per r r, map_value_eq_secVal per h _ (by intro v; simp [rowValue, Row.ofEvent])]; rfl
+  · rw [(reduce_count_sound per r r).2, aggSum_def, present_const_one per h r hr, ratSum_const_one]
+    simp only [otApply, List.length_map]
+    by_cases h0 : present (per.map secVal) = [] <;> simp [h0]
+
+theorem slice_map_range (N : Nat) (g : Nat → Val) (l j : Nat) (hj : j < N) :
+    slice ((List.range N).map g) l j = (List.range (j + 1 - l)).map (fun d => g (l + d)) := by
+  unfold slice
+  apply List.ext_getElem?
+  intro d
+  rw [List.getElem?_take, List.getElem?_drop, List.getElem?_map, List.getElem?_map]
+  by_cases hd : d < j + 1 - l
+  · rw [if_pos hd, List.getElem?_range (by omega), List.getElem?_range hd]; rfl
+  · rw [if_neg hd, List.getElem?_eq_none (by simp; omega)]; rfl
+
+theorem mergeRows_isEv (evs : List Event) (h : (evs.map (fun e => Row.ofEvent e.val)).length ≤ 1) :
+    isEv (mergeRows (evs.map (fun e => Row.ofEvent e.val))) := by
+  cases evs with
+  | nil => left; rfl
+  | cons e es =>
+    cases es with
+    | nil => right; exact ⟨e.val, rfl⟩
+    | cons e' es' => simp at h
+
+/-- **the over-time push-down, rule #1, equals the engine's window evaluation over the one-second points** (two grids):
+    for a stored series `m` with at most one event in every second of the grid, the coarse bucket [T, T+r) (Range r = bucket width, the
+    rule's side condition r = step) and the one-second grid t1 (τ0, τ0+1, …) on which `v1` is what the storage returns for
+    `m` itself (default what avg, one-second buckets):  the storage's pre-aggregate of the bucket with what = sum / min /
+    max equals `f_over_time(v1[r s])` at the last second T+r−1 of the bucket, and with what = count it equals
+    count_over_time there, except that the storage has no row (missing) where the engine reports 0. -/
+theorem overtime_pushdown_two_grids (st : Store) (m : Nat) (t1 : List Int) (τ0 T : Int) (r j : Nat)
+    (hg : uniform t1 τ0 1)
+    (hone : ∀ i : Nat, i < t1.length → (bucketRows st [m] (τ0 + (i : Int)) (τ0 + (i : Int) + 1)).length ≤ 1)
+    (hr : 1 ≤ r) (hrj : r ≤ j) (hj : j < t1.length) (hT : τ0 + (j : Int) = T + (r : Int) - 1) :
+    let v1 : List Val := (List.range t1.length).map (fun (i : Nat) => secVal (mergeRows (bucketRows st [m] (τ0 + (i : Int)) (τ0 + (i : Int) + 1))))
+    let bucket := mergeRows (bucketRows st [m] T (T + (r : Int)))
+    (overTime t1 r 1 .sum v1).getD j none = bucket.map (rowValue .sum r r) ∧
+    (overTime t1 r 1 .min v1).getD j none = bucket.map (rowValue .min r r) ∧
+    (overTime t1 r 1 .max v1).getD j none = bucket.map (rowValue .max r r) ∧
+    (overTime t1 r 1 .count v1).getD j none = (match bucket.map (rowValue .count r r) with | some x => some x | none => some 0) := by
+  intro v1 bucket
+  have hv : v1.length = t1.length := by simp [v1]
+  have hr0 : ((r : Nat) : Int) ≠ 0 := by omega
+  -- the per-second rows of the bucket
+  let per : List (Option Row) := (List.range r).map (fun (d : Nat) => mergeRows (bucketRows st [m] (T + (d : Int)) (T + (d : Int) + 1)))
+  have hper : ∀ o ∈ per, isEv o := by
+    intro o ho
+    simp only [per, List.mem_map, List.mem_range] at ho
+    obtain ⟨d, hd, rfl⟩ := ho
+    have e : T + (d : Int) = τ0 + ((j + 1 - r + d : Nat) : Int) := by
+      have : ((j + 1 - r + d : Nat) : Int) = (j : Int) + 1 - (r : Int) + (d : Int) := by omega
+      rw [this]; linarith
+    rw [e]
+    exact mergeRows_isEv _ (hone _ (by omega))
+  have hbucket : bucket = pooled per := by
+    show mergeRows (bucketRows st [m] T (T + (r : Int))) = pooled per
+    rw [bucket_by_seconds, ← mergeAll_filterMap, ← mergeRows_eq_mergeAll]; rfl
+  have hslice : slice v1 (j + 1 - r) j = per.map secVal := by
+    have hv1 : v1 = (List.range t1.length).map (fun (i : Nat) => secVal (mergeRows (bucketRows st [m] (τ0 + (i : Int)) (τ0 + (i : Int) + 1)))) := rfl
+    rw [hv1]
+    rw [slice_map_range _ _ _ _ hj]
+    have e : j + 1 - (j + 1 - r) = r := by omega
+    rw [e]
+    simp only [per, List.map_map]
+    apply List.map_congr_left
+    intro d hd
+    have hd' : d < r := List.mem_range.mp hd
+    have : τ0 + ((j + 1 - r + d : Nat) : Int) = T + (d : Int) := by
+      have : ((j + 1 - r + d : Nat) : Int) = (j : Int) + 1 - (r : Int) + (d : Int) := by omega
+      rw [this]; linarith
+    simp only [Function.comp, this]
+  obtain ⟨hsum, hmin, hmax, hcnt⟩ := bucket_value_is_window_function per hper (r : Int) hr0
+  have hnot : ¬ j < r := by omega
+  have hdef : ∀ f : OtFn, (overTime t1 r 1 f v1).getD j none =
+      if (present (per.map secVal)).length = 0 then otNil f else otApply f (per.map secVal) := by
+    intro f
+    have hk : kSpec (otStrict f) (r : Int) 1 r := by
+      refine ⟨hr, by norm_num, ?_⟩
+      cases otStrict f <;> simp
+    have := over_time_is_definition t1 τ0 1 (r : Int) r f v1 hg hk hv j hj
+    rw [this, if_neg hnot, hslice]
+  refine ⟨?_, ?_, ?_, ?_⟩
+  · rw [hdef, hbucket, hsum]
+    by_cases h0 : (present (per.map secVal)).length = 0
+    · simp [h0, otNil, otApply]
+    · simp [h0]
+  · rw [hdef, hbucket, hmin]
+    by_cases h0 : (present (per.map secVal)).length = 0
+    · have : present (per.map secVal) = [] := List.eq_nil_of_length_eq_zero h0
+      have hm := (aggMin_def (per.map secVal)).1 this
+      simp [h0, otNil, otApply, hm]
+    · simp [h0]
+  · rw [hdef, hbucket, hmax]
+    by_cases h0 : (present (per.map secVal)).length = 0
+    · have : present (per.map secVal) = [] := List.eq_nil_of_length_eq_zero h0
+      have hm := (aggMax_def (per.map secVal)).1 this
+      simp [h0, otNil, otApply, hm]
+    · simp [h0]
+  · rw [hdef, hbucket, hcnt]
+    by_cases h0 : (present (per.map secVal)).length = 0
+    · simp [h0, otNil]
+    · simp [h0, otApply]
+
+/-- avg: the pre-aggregate's sum/count is the average of the one-second values -/
+theorem bucket_avg_is_window_avg (per : List (Option Row)) (h : ∀ o ∈ per, isEv o) (r : Int) (hr : r ≠ 0) :
+    (pooled per).map (rowValue .avg r r) = otApply .avg (per.map secVal) := by
+  have hr' : (r : Rat) ≠ 0 := by exact_mod_cast hr
+  obtain ⟨hsum, _, _, hcnt⟩ := bucket_value_is_window_function per h r hr
+  cases hp : pooled per with
+  | none =>
+    rw [hp] at hsum
+    simp only [Option.map_none, otApply] at hsum
+    have h0 : (present (per.map secVal)).length = 0 := by
+      by_contra hc; simp [hc] at hsum
+    simp [otApply, aggAvg, h0]
+  | some row =>
+    rw [hp] at hsum hcnt
+    simp only [Option.map_some, otApply, rowValue] at hsum hcnt
+    have hne : ¬ (present (per.map secVal)).length = 0 := by
+      intro hc; simp [hc] at hsum
+    simp only [hne, if_false, Option.some.injEq] at hsum hcnt
+    have e1 : row.sum = ratSum (present (per.map secVal)) := by
+      rw [← hsum]; field_simp
+    have e2 : row.count = ((present (per.map secVal)).length : Rat) := by
+      rw [← hcnt]; field_simp
+    simp [otApply, aggAvg, hne, rowValue, e1, e2]
+
+/-- non-vacuity: series 0 of `exStore` (events 2 at second 100 and 4 at second 101, one per second), the bucket [100, 102)
+    of width 2 and the one-second grid 99, 100, 101 -/
+example : (∀ i : Nat, i < 3 → (bucketRows exStore [0] (99 + (i : Int)) (99 + (i : Int) + 1)).length ≤ 1) ∧ uniform [99, 100, 101] 99 1 := by
+  constructor
+  · decide +kernel
+  · intro i hi
+    have : i = 0 ∨ i = 1 ∨ i = 2 := by
+      have : i < 3 := hi
+      omega
+    rcases this with rfl | rfl | rfl <;> rfl
+example :
+    let v1 : List Val := (List.range 3).map (fun (i : Nat) => secVal (mergeRows (bucketRows exStore [0] (99 + (i : Int)) (99 + (i : Int) + 1))))
+    v1 = [none, some 2, some 4] ∧ (overTime [99, 100, 101] 2 1 .sum v1).getD 2 none = some 6 ∧
+    (mergeRows (bucketRows exStore [0] 100 102)).map (rowValue .sum 2 2) = some 6 ∧
+    (mergeRows (bucketRows exStore [0] 100 102)).map (rowValue .count 2 2) = some 2 := by decide +kernel
+
+
+/-! ### over-time functions on arbitrary (two-LOD) grids -/
+
+/-- **over_time_is_definition on an arbitrary grid** — let `L r` be the left edge the range selects for point `r` with that
+    point's own bucket width `sOf r` (= t[r+1] − t[r]; the finest LOD step for the last point): the largest l ≥ 1 passing the
+    cursor's test, i.e. (not strict) the narrowest window [t_l, t_r + sOf r) at least `w` wide, (strict) the widest one not
+    wider than `w`; L monotone (automatic when not strict: `mono_of_wide_nonstrict`).  Then for every series and every
+    *_over_time function the cursor-driven evaluation returns at point i the function of the points L i … i, the nil
+    value when none of them is present, and it is missing exactly where L i = 0 (no complete window right of the guard
+    point). Uniform grids are the instance L i = i + 1 − k. -/
+theorem over_time_is_definition_general (c : GCtx) (f : OtFn) (hst : c.strict = otStrict f) (v : List Val)
+    (hv : v.length = c.t.length) (lodStep : Int) (hlod : lodStep = c.sOf (c.t.length - 1)) (i : Nat) (hi : i < c.t.length) :
+    (overTime c.t c.w lodStep f v).getD i none =
+      if c.L i = 0 then none
+      else if (present (slice v (c.L i) i)).length = 0 then otNil f
+      else otApply f (slice v (c.L i) i) := by
+  have h := overTimeWith_general c (otApply f) (otNil f) v hv lodStep hlod i hi
+  unfold overTime
+  rw [← hst, h]
+  unfold expAtG
+  by_cases h0 : c.L i = 0
+  · simp [h0]
+  · simp only [h0, if_false]
+    by_cases h1 : (present (slice v (c.L i) i)).length = 0 <;> simp [h1]
+
+/-- what `L` means when not strict: l ≤ L r iff the window from t_l to the end of point r's bucket is at least w wide -/
+theorem L_is_narrowest_window (c : GCtx) (hns : c.strict = false) (r l : Nat) (hl : 1 ≤ l) (hlr : l ≤ r) (hr : r < c.t.length) :
+    l ≤ c.L r ↔ c.w ≤ tAt c.t r - tAt c.t l + c.sOf r := by
+  have h := c.hwide r l hl hlr hr
+  rw [hns] at h
+  simp only [wideAt, Bool.false_and, Bool.or_false] at h
+  constructor
+  · intro hle
+    have : decide (l ≤ c.L r) = true := by simpa using hle
+    rw [this] at h; simpa using h
+  · intro hw
+    have : decide (c.w ≤ tAt c.t r - tAt c.t l + c.sOf r) = true := by simpa using hw
+    rw [this] at h
+    simpa using h.symm
+
+/-- a two-LOD grid: three one-minute points, then 15-second points; range 30 s; avg/min/max/last (not strict) -/
+def twoLodT : List Int := [0, 60, 120, 135, 150, 165]
+def twoLodS (r : Nat) : Int := if r < 2 then 60 else 15
+def twoLodL : Nat → Nat
+  | 0 => 0 | 1 => 1 | 2 => 1 | 3 => 2 | 4 => 3 | 5 => 4 | r => r - 1
+
+theorem twoLod_wide : ∀ r, r < 6 → ∀ l, l ≤ r → 1 ≤ l → wideAt twoLodT 30 false (twoLodS r) r l = decide (l ≤ twoLodL r) := by
+  decide
+
+def twoLodCtx : GCtx where
+  t := twoLodT
+  w := 30
+  strict := false
+  sOf := twoLodS
+  L := twoLodL
+  hw := by decide
+  hL := by
+    intro r
+    match r with
+    | 0 | 1 | 2 | 3 | 4 | 5 => decide
+    | r + 6 => show r + 6 - 1 ≤ r + 6; omega
+  hwide := fun r l h1 h2 h3 => twoLod_wide r h3 l h2 h1
+  hmono := by
+    intro r hr
+    have : r < 5 := by
+      have : r + 1 < 6 := hr
+      omega
+    match r, this with
+    | 0, _ | 1, _ | 2, _ | 3, _ | 4, _ => decide
+  hstep := by
+    intro r h1 hr
+    have : r < 6 := hr
+    match r, h1, this with
+    | 1, _, _ | 2, _, _ | 3, _, _ | 4, _, _ | 5, _, _ => decide
+  hnarrow := by intro r _; rfl
+
+/-- on it, avg_over_time(v[30s]): the minute points see their own bucket only (60 s ≥ 30 s), the first 15 s point reaches
+    back into the last minute bucket (15 s < 30 s), the later ones average two 15 s points — as the general theorem says,
+    and as the model computes -/
+example : overTime twoLodT 30 15 .avg [some 1, some 2, some 4, none, some 8, some 16]
+    = [none, some 2, some 3, some 4, some 8, some 12] := by decide +kernel
+example : (overTime twoLodCtx.t twoLodCtx.w 15 .avg [some 1, some 2, some 4, none, some 8, some 16]).getD 2 none
+    = otApply .avg (slice [some 1, some 2, some 4, none, some 8, some 16] (twoLodCtx.L 2) 2) := by
+  rw [over_time_is_definition_general twoLodCtx .avg rfl _ rfl 15 rfl 2 (by decide)]
   decide +kernel
 
 
